@@ -328,6 +328,13 @@ func (o *oracleInv) price(m *Machine, a *Action, out Outcome) error {
 					countedWant, whyNot = false, "empty source round"
 				}
 			}
+			// a value that is not a base-10 integer cannot be counted (the statement lists
+			// necessary conditions only; such a report must then change nothing but the nonce)
+			for _, p := range a.Prices {
+				if _, ok := new(big.Int).SetString(p, 10); !ok {
+					countedWant, whyNot = false, "price is not an integer"
+				}
+			}
 			if countedWant {
 				fresh := false
 				for _, d := range a.Dets {
